@@ -422,13 +422,6 @@ def w_item(item, rep):
 
 
 # ---------------------------------------------------------------- plan
-def histories(depth):
-    out = []
-    for d in range(1, depth + 1):
-        out.extend("".join(t) for t in itertools.product("SLR", repeat=d))
-    return out
-
-
 H1 = ["S", "L", "R"]
 H2 = H1 + ["".join(t) for t in itertools.product("SLR", repeat=2)]
 H3 = H2 + ["".join(t) for t in itertools.product("SLR", repeat=3)]
